@@ -33,7 +33,7 @@ def lean_stage(chk, theorems, imports, targets):
     return res
 
 
-def run_cases(chk, cases, unit_bin, neighbours=None, known=None):
+def run_cases(chk, cases, unit_bin, neighbours=None, known=None, reference_suites=()):
     """differential run of `cases` through the C harness and the Lean driver.
     known: callable(case, c_resp, why) -> str|None ; returns the finding text when the failing case matches a listed known finding"""
     if not cases:
@@ -63,8 +63,16 @@ def run_cases(chk, cases, unit_bin, neighbours=None, known=None):
             else:
                 chk.violation('%s: %s' % (c.suite, why), {'suite': c.suite, 'request': c.req, 'implementation': co, 'model': m_out[i], 'meta': c.meta,
                                                           'replay_cmd': "echo '<request>' | <harness binary built by ./check>"})
+    nref = 0
     for i, req, co, mo in diffs:
         suite_diffs.setdefault(cases[i].suite, []).append((i, req, co, mo))
+        # reference_suites: the property itself names an independently written encoder/decoder as the yardstick, and the Lean
+        # model (proved to meet the format theorems) is that yardstick: a different answer on a concrete request is a violation
+        if cases[i].suite in reference_suites and nref < 2 and not (co is not None and co.startswith('fault:')):
+            nref += 1
+            chk.violation('%s: the implementation differs from the independent reference encoder/decoder: implementation %s, reference %s' % (cases[i].suite, str(co)[:160], str(mo)[:160]),
+                          {'suite': cases[i].suite, 'request': req, 'implementation': co, 'reference_model': mo, 'meta': cases[i].meta,
+                           'replay_cmd': "echo '<request>' | <harness binary built by ./check>  and  echo '<request>' | lean/.lake/build/bin/modeld"})
     for s in sorted(by_suite):
         d = suite_diffs.get(s, [])
         detail = '%d cases' % by_suite[s]
